@@ -309,6 +309,8 @@ PROPS["C20"] = {
         {"pkg": ".", "dir": "s3db", "entry": "VerifH_C20_args", "no_native": True, "reach": ["end", "accepted"],
          "quick": {"params": "maxargs=2,maxval=1", "workers": 16, "timeout": 1200},
          "thorough": {"params": "maxargs=3,maxval=2", "workers": 16, "timeout": 6000}},
+        {"pkg": ".", "dir": "s3db", "entry": "VerifH_C20_args", "tag": "-after-columns", "no_native": True, "reach": ["end", "accepted"],
+         "quick": {"params": "maxargs=2,maxval=1,withcolumns=1", "workers": 16, "timeout": 1200}, "quick_only": True},
         {"pkg": ".", "dir": "s3db", "entry": "VerifH_C20_schema", "no_native": True, "reach": ["end", "accepted"],
          "quick": {"workers": 16, "timeout": 1200}},
         {"pkg": ".", "dir": "s3db", "entry": "VerifH_C20_notnull", "quick": {"workers": 4, "timeout": 600}},
